@@ -4,7 +4,7 @@
    (vm_compute) for the finite range in the statement; C16_partial = what is proved of C16_full. *)
 From Coq Require Import List ZArith QArith Bool Arith Lia.
 From GV Require Import Lib.Tree Lib.Graph16 Lib.PolyRefl16 Model.QCount Model.CliqueEq
-                       Proofs.QCountP Proofs.CliqueEqP Proofs.CycleGen Proofs.QQGen Proofs.CliqueGen.
+                       Proofs.QCountP Proofs.CliqueEqP Proofs.CycleGen Proofs.QQGen Proofs.CliqueGen Proofs.CrossGen.
 Import ListNotations.
 
 (* ------------------------------------------------------------------------------------------------
@@ -211,6 +211,59 @@ Theorem C16_clique_identity_upto_6_via_count : forall tau, (2 <= tau <= 6)%nat -
 Proof. exact clique_identity_upto_6_via_count. Qed.
 Print Assumptions C16_clique_identity_upto_6_via_count.
 
+(* ---- GENERAL (growth): the exponential-formula recurrence [cross] — the checker's reference for n >= 8,
+   until now "a consistency check, not a count" — IS the number of connected labelled graphs, every n, every k.
+   Proof (Proofs/CrossGen.v): coefficient semantics of the list-polynomial operations; the counting identity
+   below; strong induction on n. *)
+Theorem C16_cross_counts_connected_graphs : forall n k, (1 <= n)%nat -> (0 <= k)%Z ->
+  cross n k = brute n (Z.to_nat k).
+Proof. exact cross_eq_brute. Qed.
+Print Assumptions C16_cross_counts_connected_graphs.
+
+(* all k-edge graphs on n labelled vertices, classified by the vertex set of the root's component:
+   C(n(n-1)/2, k) = sum_kappa C(n-1, kappa) sum_i #connected(kappa+1, i) C((n-kappa-1)(n-kappa-2)/2, k-i)
+   ([Cn] = Pascal's binomial = the code's factorial binomial by C16_binomial_is_pascal;
+    length (all_edges m) = m(m-1)/2 by C16_complete_graph_size) *)
+Theorem C16_counting_identity : forall n k, (1 <= n)%nat ->
+  Cn (length (all_edges n)) k =
+  zsum (map (fun kappa => Cn (n - 1) kappa *
+                          zsum (map (fun i => brute (S kappa) i * Cn (length (all_edges (n - S kappa))) (k - i))
+                                    (seq 0 (S k))))%Z
+            (seq 0 n)).
+Proof. exact count_identity_Z. Qed.
+Print Assumptions C16_counting_identity.
+
+(* the number of k-subsets of a list is Pascal's binomial (the vertex-subset counting of the clique equation) *)
+Theorem C16_combs_count : forall (l : list nat) k, Z.of_nat (length (combs k l)) = Cn (length l) k.
+Proof. exact (@combs_length nat). Qed.
+Print Assumptions C16_combs_count.
+
+(* ---- BOUNDED, now a COUNT: Q n k = number of connected labelled graphs for n <= 12 (Q = cross by reflection,
+   cross = brute in general; the brute-force enumeration itself is never run beyond n = 6) *)
+Theorem C16_Q_count_upto_12 : forall n k, (1 <= n <= 12)%nat -> (0 <= k <= tri (Z.of_nat n))%Z ->
+  Qv n k = brute n (Z.to_nat k).
+Proof. exact Q_count_upto_12. Qed.
+Print Assumptions C16_Q_count_upto_12.
+
+(* ---- BOUNDED: the clique identity for 2 <= tau <= 12, heterogeneous H (regrouping theorem + the count) *)
+Theorem C16_clique_identity_upto_12 : forall tau, (2 <= tau <= 12)%nat ->
+  forall (phi : Q) (Hs : list Q), length Hs = (tau - 1)%nat ->
+    clique_val tau phi Hs == exact_val (seq 0 tau) (all_edges tau) 0 phi (fun v => nth (v - 1) Hs 0).
+Proof. exact clique_identity_upto_12. Qed.
+Print Assumptions C16_clique_identity_upto_12.
+
+(* ---- GENERAL: the verified checker's verdict on Q / QQ values is about the TRUE count for every n *)
+Theorem C16_check_count_sound_all : forall bmax n k r, (1 <= n)%nat -> (0 <= k)%Z ->
+  check_count bmax n k r = true -> r = brute n (Z.to_nat k).
+Proof. exact check_count_sound_all. Qed.
+Print Assumptions C16_check_count_sound_all.
+
+Theorem C16_check_row_sound_all : forall bmax n rs, (1 <= n)%nat ->
+  check_row bmax n rs = true ->
+  forall k, (0 <= k <= tri (Z.of_nat n))%Z -> nth (Z.to_nat k) rs 0%Z = brute n (Z.to_nat k).
+Proof. exact check_row_sound_all. Qed.
+Print Assumptions C16_check_row_sound_all.
+
 (* ---- GENERAL: the polynomial the model puts on the wire evaluates, for every valuation of the variables,
    to the code's arithmetic on rationals (so comparing polynomials compares the functions) *)
 Theorem C16_clique_model_semantics : forall l tau P HS,
@@ -325,6 +378,29 @@ Proof.
 Qed.
 Print Assumptions C16_partial_v2.
 
+(* ---- growth, second step: clique tau <= 12, cycle unbounded, Q = count n <= 12, QQ unbounded, counter general *)
+Definition C16_bounded_v3 : Prop :=
+  (forall tau, (2 <= tau <= 12)%nat -> forall (phi : Q) (Hs : list Q), length Hs = (tau - 1)%nat ->
+     clique_val tau phi Hs == exact_val (seq 0 tau) (all_edges tau) 0 phi (fun v => nth (v - 1) Hs 0)) /\
+  (forall n, (3 <= n)%nat -> forall (u phi : Q),
+     cycle_val n u phi == exact_val (seq 0 n) (cycle_edges n) 0 phi (fun _ => u)) /\
+  (forall n k, (1 <= n <= 12)%nat -> (0 <= k <= tri (Z.of_nat n))%Z -> Qcode n k = brute n (Z.to_nat k)) /\
+  (forall n k, (1 <= n)%nat -> (0 <= k <= tri (Z.of_nat n))%Z -> QQv n k = brute n (Z.to_nat k)) /\
+  (forall nodes edges ak i k, (0 <= k)%Z ->
+     let vs := induced_vs nodes ak i in
+     let es := induced_es vs edges in
+     vs <> [] ->
+     exists c, ncg_model nodes edges ak i k = Val c /\
+               Card (fun T => subl T es /\ length T = Z.to_nat k /\ Connected vs (ediff es T)) c).
+
+Theorem C16_partial_v3 : C16_bounded_v3.
+Proof.
+  refine (conj clique_identity_upto_12 (conj cycle_identity_general (conj _
+            (conj (fun n k _ Hk => QQ_eq_brute_general n k Hk) ncg_spec)))).
+  intros n k Hn Hk. rewrite <- Qv_is_code by lia. apply Q_count_upto_12; assumption.
+Qed.
+Print Assumptions C16_partial_v3.
+
 (* ---- non-vacuity: concrete non-trivial inputs meeting the hypotheses *)
 (* the triangle with a pendant vertex, ak = [1;2], i = 0, k = 1: three ways to delete one edge of the
    induced triangle and stay connected; hypotheses of C16_ncg_spec hold *)
@@ -389,3 +465,10 @@ Proof.
   split; [|repeat split; vm_compute; reflexivity].
   intros e He. cbn in He. destruct He as [<-|[<-|[<-|[]]]]; cbn; lia.
 Qed.
+
+(* growth: cross beyond the brute-force range — cross 9 12 = Q(9,12) (hypotheses 1 <= 9, 0 <= 12), and the
+   checker accepts exactly that value for n = 9 (where it consults cross) *)
+Example C16_nonvacuous_cross :
+  (1 <= 9)%nat /\ (0 <= 12)%Z /\ cross 9 12 = Qv 9 12 /\ (cross 9 12 > 0)%Z /\
+  check_count 6 9 12 (cross 9 12) = true /\ check_count 6 9 12 (cross 9 12 + 1) = false.
+Proof. split; [lia|]. split; [lia|]. vm_compute. repeat split; reflexivity. Qed.
